@@ -14,7 +14,7 @@ From Flocq Require Import Core.   (* bpow, radix2 for the float-clause statement
 From Coq Require Import PrimFloat.
 From Coq Require Import ZArith List Bool Reals.
 From Coquelicot Require Import Coquelicot.
-From BZ Require Import Base.Ops Gen.Point Gen.Line Gen.Quad Gen.Cubic Proofs.C01 Proofs.C01float Base.FloatErr.
+From BZ Require Import Base.Ops Gen.Point Gen.Line Gen.Quad Gen.Cubic Proofs.C01 Proofs.C01float Base.FloatErr Proofs.C01retrace.
 Import ListNotations.
 Open Scope R_scope.
 
@@ -134,6 +134,45 @@ Proof. exact cubic_derivative_float_1e12. Qed.
 Theorem C01_quad_eval_example :
   pt_close (Quad_pointAtTime FOps ex_quad ex_t) (Quad_pointAtTime ROps (seg3R ex_quad) (FR ex_t)) (1e-12 * 150).
 Proof. exact quad_eval_example. Qed.
+Theorem C01_cubic_eval_lipschitz :
+  forall (a b : seg4 R) s e, 0 <= s <= 1 -> rseg4_close a b e -> rpt_close (Cubic_pointAtTime ROps a s) (Cubic_pointAtTime ROps b s) e.
+Proof. exact cubic_eval_lipschitz. Qed.
+Theorem C01_cubic_split_pieces_ok :
+  forall M (s : seg4 float) t, M <= Mcap -> seg4_ok M s -> t_ok t -> seg4_ok (M + (73 * u * M + 22 * eta)) (fst (Cubic_splitAtTime FOps s t)) /\ seg4_ok (M + (73 * u * M + 22 * eta)) (snd (Cubic_splitAtTime FOps s t)).
+Proof. exact cubic_split_pieces_ok. Qed.
+Theorem C01_line_split_retrace_float :
+  forall M (s : seg2 float) t v, M <= Mcap / 2 -> seg2_ok M s -> t_ok t -> t_ok v -> pt_close (Line_pointAtTime FOps (fst (Line_splitAtTime FOps s t)) v) (Line_pointAtTime ROps (seg2R s) (FR v * FR t)) (15 * u * M + 9 * eta) /\ pt_close (Line_pointAtTime FOps (snd (Line_splitAtTime FOps s t)) v) (Line_pointAtTime ROps (seg2R s) (FR t + FR v * (1 - FR t))) (15 * u * M + 9 * eta).
+Proof. exact line_split_retrace_float. Qed.
+Theorem C01_quad_split_retrace_float :
+  forall M (s : seg3 float) t v, M <= Mcap / 2 -> seg3_ok M s -> t_ok t -> t_ok v -> pt_close (Quad_pointAtTime FOps (fst (Quad_splitAtTime FOps s t)) v) (Quad_pointAtTime ROps (seg3R s) (FR v * FR t)) (52 * u * M + 17 * eta) /\ pt_close (Quad_pointAtTime FOps (snd (Quad_splitAtTime FOps s t)) v) (Quad_pointAtTime ROps (seg3R s) (FR t + FR v * (1 - FR t))) (52 * u * M + 17 * eta).
+Proof. exact quad_split_retrace_float. Qed.
+Theorem C01_cubic_split_retrace_float :
+  forall M (s : seg4 float) t v, M <= Mcap / 2 -> seg4_ok M s -> t_ok t -> t_ok v -> pt_close (Cubic_pointAtTime FOps (fst (Cubic_splitAtTime FOps s t)) v) (Cubic_pointAtTime ROps (seg4R s) (FR v * FR t)) (148 * u * M + 31 * eta) /\ pt_close (Cubic_pointAtTime FOps (snd (Cubic_splitAtTime FOps s t)) v) (Cubic_pointAtTime ROps (seg4R s) (FR t + FR v * (1 - FR t))) (148 * u * M + 31 * eta).
+Proof. exact cubic_split_retrace_float. Qed.
+Theorem C01_line_split_meet_float :
+  forall M (s : seg2 float) t, M <= Mcap -> seg2_ok M s -> t_ok t -> l1 (fst (Line_splitAtTime FOps s t)) = l0 (snd (Line_splitAtTime FOps s t)) /\ pt_close (l1 (fst (Line_splitAtTime FOps s t))) (Line_pointAtTime ROps (seg2R s) (FR t)) (7 * u * M + 4 * eta) /\ pt_close (l0 (snd (Line_splitAtTime FOps s t))) (Line_pointAtTime ROps (seg2R s) (FR t)) (7 * u * M + 4 * eta).
+Proof. exact line_split_meet_float. Qed.
+Theorem C01_quad_split_meet_float :
+  forall M (s : seg3 float) t, M <= Mcap -> seg3_ok M s -> t_ok t -> q2 (fst (Quad_splitAtTime FOps s t)) = q0 (snd (Quad_splitAtTime FOps s t)) /\ pt_close (q2 (fst (Quad_splitAtTime FOps s t))) (Quad_pointAtTime ROps (seg3R s) (FR t)) (25 * u * M + 10 * eta) /\ pt_close (q0 (snd (Quad_splitAtTime FOps s t))) (Quad_pointAtTime ROps (seg3R s) (FR t)) (25 * u * M + 10 * eta).
+Proof. exact quad_split_meet_float. Qed.
+Theorem C01_cubic_split_meet_float :
+  forall M (s : seg4 float) t, M <= Mcap -> seg4_ok M s -> t_ok t -> c3 (fst (Cubic_splitAtTime FOps s t)) = c0 (snd (Cubic_splitAtTime FOps s t)) /\ pt_close (c3 (fst (Cubic_splitAtTime FOps s t))) (Cubic_pointAtTime ROps (seg4R s) (FR t)) (73 * u * M + 22 * eta) /\ pt_close (c0 (snd (Cubic_splitAtTime FOps s t))) (Cubic_pointAtTime ROps (seg4R s) (FR t)) (73 * u * M + 22 * eta).
+Proof. exact cubic_split_meet_float. Qed.
+Theorem C01_line_split_retrace_float_1e12 :
+  forall M (s : seg2 float) t v, M <= Mcap / 2 -> seg2_ok M s -> t_ok t -> t_ok v -> pt_close (Line_pointAtTime FOps (fst (Line_splitAtTime FOps s t)) v) (Line_pointAtTime ROps (seg2R s) (FR v * FR t)) (1e-12 * M + bpow radix2 (-1070)) /\ pt_close (Line_pointAtTime FOps (snd (Line_splitAtTime FOps s t)) v) (Line_pointAtTime ROps (seg2R s) (FR t + FR v * (1 - FR t))) (1e-12 * M + bpow radix2 (-1070)).
+Proof. exact line_split_retrace_float_1e12. Qed.
+Theorem C01_quad_split_retrace_float_1e12 :
+  forall M (s : seg3 float) t v, M <= Mcap / 2 -> seg3_ok M s -> t_ok t -> t_ok v -> pt_close (Quad_pointAtTime FOps (fst (Quad_splitAtTime FOps s t)) v) (Quad_pointAtTime ROps (seg3R s) (FR v * FR t)) (1e-12 * M + bpow radix2 (-1070)) /\ pt_close (Quad_pointAtTime FOps (snd (Quad_splitAtTime FOps s t)) v) (Quad_pointAtTime ROps (seg3R s) (FR t + FR v * (1 - FR t))) (1e-12 * M + bpow radix2 (-1070)).
+Proof. exact quad_split_retrace_float_1e12. Qed.
+Theorem C01_cubic_split_retrace_float_1e12 :
+  forall M (s : seg4 float) t v, M <= Mcap / 2 -> seg4_ok M s -> t_ok t -> t_ok v -> pt_close (Cubic_pointAtTime FOps (fst (Cubic_splitAtTime FOps s t)) v) (Cubic_pointAtTime ROps (seg4R s) (FR v * FR t)) (1e-12 * M + bpow radix2 (-1070)) /\ pt_close (Cubic_pointAtTime FOps (snd (Cubic_splitAtTime FOps s t)) v) (Cubic_pointAtTime ROps (seg4R s) (FR t + FR v * (1 - FR t))) (1e-12 * M + bpow radix2 (-1070)).
+Proof. exact cubic_split_retrace_float_1e12. Qed.
+Theorem C01_cubic_split_retrace_float_1e12_rel :
+  forall M (s : seg4 float) t v, bpow radix2 (-1000) <= M <= Mcap / 2 -> seg4_ok M s -> t_ok t -> t_ok v -> pt_close (Cubic_pointAtTime FOps (fst (Cubic_splitAtTime FOps s t)) v) (Cubic_pointAtTime ROps (seg4R s) (FR v * FR t)) (1e-12 * M) /\ pt_close (Cubic_pointAtTime FOps (snd (Cubic_splitAtTime FOps s t)) v) (Cubic_pointAtTime ROps (seg4R s) (FR t + FR v * (1 - FR t))) (1e-12 * M).
+Proof. exact cubic_split_retrace_float_1e12_rel. Qed.
+Theorem C01_quad_split_retrace_example :
+  pt_close (Quad_pointAtTime FOps (fst (Quad_splitAtTime FOps ex_quad ex_t)) ex_v) (Quad_pointAtTime ROps (seg3R ex_quad) (FR ex_v * FR ex_t)) (1e-12 * 150) /\ pt_close (Quad_pointAtTime FOps (snd (Quad_splitAtTime FOps ex_quad ex_t)) ex_v) (Quad_pointAtTime ROps (seg3R ex_quad) (FR ex_t + FR ex_v * (1 - FR ex_t))) (1e-12 * 150).
+Proof. exact quad_split_retrace_example. Qed.
 
 Print Assumptions C01_line_eval_is_bernstein.
 Print Assumptions C01_quad_eval_is_bernstein.
@@ -171,3 +210,16 @@ Print Assumptions C01_cubic_split_float_1e12.
 Print Assumptions C01_quad_derivative_float_1e12.
 Print Assumptions C01_cubic_derivative_float_1e12.
 Print Assumptions C01_quad_eval_example.
+Print Assumptions C01_cubic_eval_lipschitz.
+Print Assumptions C01_cubic_split_pieces_ok.
+Print Assumptions C01_line_split_retrace_float.
+Print Assumptions C01_quad_split_retrace_float.
+Print Assumptions C01_cubic_split_retrace_float.
+Print Assumptions C01_line_split_meet_float.
+Print Assumptions C01_quad_split_meet_float.
+Print Assumptions C01_cubic_split_meet_float.
+Print Assumptions C01_line_split_retrace_float_1e12.
+Print Assumptions C01_quad_split_retrace_float_1e12.
+Print Assumptions C01_cubic_split_retrace_float_1e12.
+Print Assumptions C01_cubic_split_retrace_float_1e12_rel.
+Print Assumptions C01_quad_split_retrace_example.
